@@ -142,7 +142,8 @@ def replay_chunk(args):
         base = scen.new_base(workdir)
         try:
             rnd = random.Random(f"{seed}-{si}")
-            m = scen.Mat(sc, base, seed=0, plain=True)
+            # every third scenario keeps one main and one header with DOS line endings (same lines, other bytes)
+            m = scen.Mat(sc, base, seed=0, plain=True, crlf=({"src/m2.c", "inc/h.h"} if si % 3 == 0 else ()))
             tags = scen.features(sc) | {"c06"}
             # symlinks: one at the root, one below it, both to a member file
             main = m.paths["src/m1.c"]
